@@ -16,13 +16,22 @@ CONTRACTS = {
         props=['C08'],
         args=OD([('k', 'int'), ('i', 'int')]), returns='real',
         requires=['k >= 0', 'i >= 0'],
+        funcs={'fact': (['int'], 'int'), 'binom': (['int', 'int'], 'real')},
+        # binom is the name of the value for other contracts; its defining equation is the third clause
+        # definition of the spec function binom (unique, because the factorials are >= 1)
+        axioms=['forall(n, fact(n) >= 1)',
+                'forall(a, forall(b, implies(0 <= b and b <= a, binom(a, b) * real(fact(a - b) * fact(b)) == real(fact(a)))))',
+                'forall(a, forall(b, implies(b > a, binom(a, b) == 0)))'],
         ensures=['implies(i > k, result == 0)', 'implies(i <= k, result > 0)',
-                 'implies(i == 0, result == 1)', 'implies(i == k, result == 1)'],
+                 'implies(i == 0, result == 1)', 'implies(i == k, result == 1)',
+                 'implies(i <= k, result * real(fact(k - i) * fact(i)) == real(fact(k)))',
+                 'result == binom(k, i)'],
     ),
     'helpers.degree_elevation': dict(
         props=['C08'],
         args=OD([('degree', 'int'), ('ctrlpts', M), ('kwargs', 'kwargs')]),
         ghost_args=OD([('g_num', 'int')]), kwargs={'num': '$g_num'},
+        funcs={'fact': (['int'], 'int'), 'binom': (['int', 'int'], 'real')},
         returns=M, locals={'pts_elev': M},
         requires=['degree >= 0', 'len(ctrlpts) >= 1', ROWS],
         raises={'GeomdlException': 'degree + 1 != len(ctrlpts) or g_num <= 0'},
@@ -115,3 +124,108 @@ CONTRACTS['helpers.degree_reduction#inverts_elevation'] = dict(
     rounds=3, timeout_ms=30000, chunks=6,
 )
 del _b
+
+# ---- elevation by one in closed form (Eq. 5.36 with num = 1), from two binomial identities proved as ghost lemmas:
+#        C(n-1, i-1) * n == C(n, i) * i            C(n-1, i) * n == C(n, i) * (n - i)
+FACT_AX = ['forall(n, fact(n) >= 1)', 'forall(n, implies(n >= 1, fact(n) == n * fact(n - 1)))']
+BF = {'fact': (['int'], 'int'), 'binom': (['int', 'int'], 'real')}
+CONTRACTS.update({
+    'lemma.binom_ratio_low': dict(
+        props=['C08'],
+        source="""
+def lemma(n, i):
+    a = binomial_coefficient(n - 1, i - 1)
+    b = binomial_coefficient(n, i)
+    return 0
+""",
+        imports={'binomial_coefficient': 'linalg.binomial_coefficient'},
+        args=OD([('n', 'int'), ('i', 'int')]), returns='int', funcs=BF, axioms=FACT_AX,
+        requires=['1 <= i', 'i <= n'],
+        ensures=['binom(n - 1, i - 1) * real(n) == binom(n, i) * real(i)'],
+        after={'b': ['a == binom(n - 1, i - 1)', 'b == binom(n, i)','fact(n) == n * fact(n - 1)', 'fact(i) == i * fact(i - 1)', 'fact(n - i) >= 1', 'fact(i - 1) >= 1', 'fact(n - 1) >= 1',
+                     'a * real(fact(n - i) * fact(i - 1)) == real(fact(n - 1))',
+                     'b * real(fact(n - i) * fact(i)) == real(fact(n))',
+                     'b * real(i) * real(fact(n - i) * fact(i - 1)) == real(n) * real(fact(n - 1))',
+                     'b * real(i) * real(fact(n - i) * fact(i - 1)) == real(n) * a * real(fact(n - i) * fact(i - 1))',
+                     'real(fact(n - i) * fact(i - 1)) > 0',
+                     'b * real(i) == real(n) * a']},
+        timeout_ms=30000,
+    ),
+})
+CONTRACTS.update({
+    'lemma.binom_ratio_same': dict(
+        props=['C08'],
+        source="""
+def lemma(n, i):
+    a = binomial_coefficient(n - 1, i)
+    b = binomial_coefficient(n, i)
+    return 0
+""",
+        imports={'binomial_coefficient': 'linalg.binomial_coefficient'},
+        args=OD([('n', 'int'), ('i', 'int')]), returns='int', funcs=BF, axioms=FACT_AX,
+        requires=['0 <= i', 'i <= n - 1'],
+        ensures=['binom(n - 1, i) * real(n) == binom(n, i) * real(n - i)'],
+        after={'b': ['a == binom(n - 1, i)', 'b == binom(n, i)',
+                     'fact(n) == n * fact(n - 1)', 'fact(n - i) == (n - i) * fact(n - i - 1)', 'fact(n - i - 1) >= 1', 'fact(i) >= 1',
+                     'a * real(fact(n - 1 - i) * fact(i)) == real(fact(n - 1))',
+                     'b * real(fact(n - i) * fact(i)) == real(fact(n))',
+                     'b * real(n - i) * real(fact(n - i - 1) * fact(i)) == real(n) * real(fact(n - 1))',
+                     'b * real(n - i) * real(fact(n - i - 1) * fact(i)) == real(n) * a * real(fact(n - i - 1) * fact(i))',
+                     'real(fact(n - i - 1) * fact(i)) > 0',
+                     'b * real(n - i) == real(n) * a']},
+        timeout_ms=30000,
+    ),
+})
+Q1 = 'real(%s) / real(degree + 1)'
+FORM = lambda arr, q: ('forall(d, 0, len(ctrlpts[0]), %s[%s][d] == (%s) * ctrlpts[%s - 1][d] + (1 - %s) * ctrlpts[%s][d])'
+                       % (arr, q, Q1 % q, q, Q1 % q, q))
+_e = CONTRACTS['helpers.degree_elevation']
+CONTRACTS['helpers.degree_elevation#by_one'] = dict(
+    _e, target='helpers.degree_elevation', props=['C08'], funcs=BF,
+    uses_lemmas=['lemma.binom_ratio_low', 'lemma.binom_ratio_same'],
+    requires=['degree >= 0', 'len(ctrlpts) == degree + 1', ROWS, 'g_num == 1'],
+    raises={},
+    ensures=['len(result) == degree + 2', 'forall(q, 0, len(result), len(result[q]) == len(ctrlpts[0]))',
+             'forall(d, 0, len(ctrlpts[0]), result[0][d] == ctrlpts[0][d])',
+             'forall(d, 0, len(ctrlpts[0]), result[degree + 1][d] == ctrlpts[degree][d])',
+             'forall(q, 1, degree + 1, %s)' % FORM('result', 'q')],
+    loops={0: dict(inv=['len(pts_elev) == num_pts_elev', 'forall(q, 0, len(pts_elev), len(pts_elev[q]) == len(ctrlpts[0]))',
+                        'implies(i >= 1, forall(d, 0, len(ctrlpts[0]), pts_elev[0][d] == ctrlpts[0][d]))',
+                        'implies(i >= num_pts_elev, forall(d, 0, len(ctrlpts[0]), pts_elev[degree + 1][d] == ctrlpts[degree][d]))',
+                        'forall(q, i, num_pts_elev, forall(d, 0, len(ctrlpts[0]), pts_elev[q][d] == 0))',
+                        'forall(q, 1, min(i, degree + 1), %s)' % FORM('pts_elev', 'q')]),
+           1: dict(snapshot={'pe0': 'pts_elev'},
+                   inv=_e['loops'][1]['inv'] + [
+                       'implies(1 <= i and i <= degree and j == start, forall(d, 0, len(ctrlpts[0]), pts_elev[i][d] == 0))',
+                       'implies(1 <= i and i <= degree and j == start + 1, forall(d, 0, len(ctrlpts[0]), pts_elev[i][d] == (%s) * ctrlpts[i - 1][d]))' % (Q1 % 'i'),
+                       'implies(1 <= i and i <= degree and j == start + 2, %s)' % FORM('pts_elev', 'i')],
+                   hints=['implies(1 <= i and i <= degree, start == i - 1 and end == i)',
+                          'implies(1 <= i and i <= degree and head_j == i - 1, coeff * binom(degree + 1, i) == binom(degree, i - 1))',
+                          'implies(1 <= i and i <= degree and head_j == i - 1, binom(degree, i - 1) * real(degree + 1) == binom(degree + 1, i) * real(i))',
+                          'implies(1 <= i and i <= degree and head_j == i - 1, coeff * real(degree + 1) == real(i))',
+                          'implies(1 <= i and i <= degree and head_j == i - 1, coeff == %s)' % (Q1 % 'i'),
+                          'implies(1 <= i and i <= degree and head_j == i, coeff * binom(degree + 1, i) == binom(degree, i))',
+                          'implies(1 <= i and i <= degree and head_j == i, binom(degree, i) * real(degree + 1) == binom(degree + 1, i) * real(degree + 1 - i))',
+                          'implies(1 <= i and i <= degree and head_j == i, coeff * real(degree + 1) == real(degree + 1 - i))',
+                          'implies(1 <= i and i <= degree and head_j == i, coeff == 1 - %s)' % (Q1 % 'i')])},
+    rounds=3, timeout_ms=30000, chunks=8,
+)
+del _e
+
+# ---- C08: reducing an exact elevation returns the original control points, for every degree >= 1 and dimension
+CONTRACTS['lemma.reduction_inverts_elevation'] = dict(
+    props=['C08'],
+    source="""
+def lemma(degree, ctrlpts):
+    q = degree_elevation(degree, ctrlpts, num=1)
+    r = degree_reduction(degree + 1, q)
+    return r
+""",
+    imports={'degree_elevation': 'helpers.degree_elevation#by_one', 'degree_reduction': 'helpers.degree_reduction#inverts_elevation'},
+    ghost_bind={'helpers.degree_reduction#inverts_elevation': {'P': 'ctrlpts'}},
+    args=OD([('degree', 'int'), ('ctrlpts', M)]), returns=M, funcs=BF,
+    requires=['degree >= 1', 'len(ctrlpts) == degree + 1', ROWS, 'len(ctrlpts[0]) >= 1'],
+    ensures=['len(result) == degree + 1', 'forall(q, 0, degree + 1, len(result[q]) == len(ctrlpts[0]))',
+             'forall(q, 0, degree + 1, forall(d, 0, len(ctrlpts[0]), result[q][d] == ctrlpts[q][d]))'],
+    rounds=3, timeout_ms=30000,
+)
